@@ -136,6 +136,8 @@ namespace ratio
                             }
                         }
                 // we notify that some atoms are starting their execution..
+                for (const auto &atm : starting_atms->second)
+                    started.insert(atm);
                 for (const auto &l : listeners)
                     l->start(starting_atms->second);
             }
@@ -191,6 +193,8 @@ namespace ratio
                         }
                     }
                 // we notify that some atoms are ending their execution..
+                for (const auto &atm : ending_atms->second)
+                    ended.insert(atm);
                 for (const auto &l : listeners)
                     l->end(ending_atms->second);
             }
@@ -298,8 +302,8 @@ namespace ratio
                     {
                         arith_expr at_expr = atm->get(RATIO_AT);
                         inf_rational at = slv.arith_value(at_expr);
-                        if (at < current_time)
-                            continue; // this atom is already in the past..
+                        if (ended.count(&c_atm))
+                            continue; // this atom has already been executed..
                         s_atms[at].insert(&c_atm);
                         e_atms[at].insert(&c_atm);
                         pulses.insert(at);
@@ -309,11 +313,11 @@ namespace ratio
                         arith_expr s_expr = atm->get(RATIO_START);
                         arith_expr e_expr = atm->get(RATIO_END);
                         inf_rational end = slv.arith_value(e_expr);
-                        if (end < current_time)
-                            continue; // this atom is already in the past..
+                        if (ended.count(&c_atm))
+                            continue; // this atom has already been executed..
                         inf_rational start = slv.arith_value(s_expr);
-                        if (start >= current_time)
-                        {
+                        if (!started.count(&c_atm))
+                        { // the start of this atom has not been notified yet (notice that comparing with the current time would lose the atoms whose start lies within the current tick)..
                             s_atms[start].insert(&c_atm);
                             pulses.insert(start);
                         }
